@@ -103,26 +103,37 @@ def run(chk):
     from harness.drivers import state_store as base
     from harness.drivers import state_store_conc as drv
 
+    from concurrent.futures import ThreadPoolExecutor
+    pool = ThreadPoolExecutor(max_workers=2)
     # ---- 1. design level: exhaustive TLC
+    # the strict property on the as-coded model must FAIL (sqlite): counterexample + state graph
+    fut_w = pool.submit(_model, chk, "witness", expect_violation="Inv_C20", dump=chk.work / "g_witness",
+                        extra=("-continue", "-fp", "0"), workers=1, coverage=False)
     res_q = _model(chk, "quick")
     progs2 = _programs(res_q)
     progs3 = {}
     if not chk.quick:
-        _model(chk, "design_quick", coverage=False)
+        res_2 = _model(chk, "two", coverage=False)
+        _model(chk, "design_two", coverage=False)
         res_f = _model(chk, "full2", coverage=False)
-        for k, v in _programs(res_f).items():
-            known = {json.dumps(p, sort_keys=True) for p in progs2.get(k, [])}
-            progs2[k] = progs2.get(k, []) + [p for p in v if json.dumps(p, sort_keys=True) not in known]
+        for r in (res_2, res_f):
+            for k, v in _programs(r).items():
+                known = {json.dumps(p, sort_keys=True) for p in progs2.get(k, [])}
+                progs2[k] = progs2.get(k, []) + [p for p in v if json.dumps(p, sort_keys=True) not in known]
         res_t = _model(chk, "three", workers=8, coverage=False)
         progs3 = _programs(res_t)
         _model(chk, "design_three", workers=8, coverage=False)
-    # the strict property on the as-coded model must FAIL (sqlite): counterexample + state graph
-    res_w = _model(chk, "witness", expect_violation="Inv_C20", dump=chk.work / "g_witness", extra=("-continue",),
-                   workers=1, coverage=False)
+    res_w = fut_w.result()
     chk.add(model_ascoded_counterexample=bool(res_w.violated == "Inv_C20"))
     if res_w.violated != "Inv_C20":
         chk.note("the as-coded model no longer violates Inv_C20 on the witness programs (%s)" % res_w.violated)
     g = tlc.load_dot(str(chk.work / "g_witness") + ".dot")
+    # canonical order (state ids are fingerprints; the dump order is not fixed): rank states by their text
+    rank = {sid: i for i, sid in enumerate(sorted(g.raw, key=lambda x: g.raw[x]))}
+    g.raw = {rank[k]: v for k, v in g.raw.items()}
+    g.states = {}
+    g.edges = sorted((rank[a], rank[b], lab) for a, b, lab in g.edges)
+    g.init = sorted(rank[i] for i in g.init)
 
     # ---- 2. the real stores
     env = base.SqliteEnv(chk.work / "db")
@@ -133,13 +144,9 @@ def run(chk):
         for be, kind in SYSTEMS:
             e = env if be == "sqlite" else None
             plist = progs2.get(kind, [])
-            if chk.quick and be == "sqlite":
-                # quick tier: every program with singleton commands; pairs for every 4th program
-                for i, pr in enumerate(plist):
-                    traces[2] += drv.explore(be, kind, pr, e, max_batch=2 if i % 4 == 0 else 1)
-            else:
-                for pr in plist:
-                    traces[2] += drv.explore(be, kind, pr, e, max_batch=2)
+            for i, pr in enumerate(plist):
+                # quick tier: singleton commands for every program, ordered pairs for every 5th one
+                traces[2] += drv.explore(be, kind, pr, e, max_batch=1 if (chk.quick and i % 5) else 2)
             for i, pr in enumerate(progs3.get(kind, [])):
                 if be == "sqlite" and i % 3:
                     continue
@@ -168,10 +175,11 @@ def run(chk):
         for off in range(0, len(trs), B):
             part = trs[off:off + B]
             batch = {"procs": procs, "dev": True, "traces": part}
-            verdicts, _ = tracecheck.observe(chk, "obs/Obs_C20.tla", "obs/Obs_C20.cfg", batch,
-                                             name="obs%d_%d" % (np_, off), workers=4)
+            fut_o = pool.submit(tracecheck.observe, chk, "obs/Obs_C20.tla", "obs/Obs_C20.cfg", batch,
+                                name="obs%d_%d" % (np_, off), workers=2)
             reached, res = tracecheck.conform(chk, "stores/TraceStateStoreConc.tla", "stores/TraceStateStoreConc.cfg",
                                               batch, name="trace%d_%d" % (np_, off), workers=4)
+            verdicts, _ = fut_o.result()
             if res.violated:
                 chk.note("conformance: model invariant %s fails on an inferred step of a real trace" % res.violated)
             for i, tr in enumerate(part, 1):
